@@ -23,6 +23,7 @@ class _Live:
         self.records = None
         self.kw = None
         self.last = None
+        self.sib = None
 
     def step(self, line):
         from ak.ppobj import PPTable
@@ -31,9 +32,19 @@ class _Live:
             if op == "parse":
                 return "ok " + _show_parsed(dec_str(args[0]))
             if op == "new":
-                self.table, self.last = None, None
+                self.table, self.last, self.sib = None, None, None
                 self.records, self.kw = c12.decode(args)
-                self.table = PPTable(self.records, **self.kw)
+                self.table = PPTable(self.records, **{k: v for k, v in self.kw.items() if k != "_names"})
+                if "fields" not in self.kw:
+                    # the names a field-less table gives its fields: what "the same fields" means for it later
+                    self.kw["_names"] = (["col_%d" % (i + 1) for i in range(len(self.records[0]))]
+                                         if self.records else ["-" + " " * 30 + "-"])
+                return "ok"
+            if op == "newobj":
+                self.table, self.last, self.sib = None, None, None
+                spec, q = c12.split_at(args)
+                self.records, self.kw = c12.decode(spec)
+                self.table = _build_direct(self.records, self.kw, q)
                 return "ok"
             if self.table is None:
                 return "err NoTable"
@@ -51,6 +62,19 @@ class _Live:
                     return "err NoTable"
                 self.table.fmt = dec_str(args[0]) if op == "set" else self.last
                 return "ok"
+            if op == "sib":
+                # a second table from the SAME format object, with other records
+                records2, kw2 = c12.dec_rest(args)
+                t = PPTable(records2, fmt_obj=self.table.fmt, **kw2)
+                kw = dict(self.kw)
+                kw["header"], kw["footer"] = kw2.get("header"), kw2.get("footer")
+                self.sib = (t, records2, kw)
+                return "ok"
+            if op == "swap":
+                if self.sib is None:
+                    return "err NoTable"
+                (self.table, self.records, self.kw), self.sib = self.sib, (self.table, self.records, self.kw)
+                return "ok"
             if op == "ctorobj":
                 t = PPTable(self.records, fmt_obj=self.table.fmt, header=self.kw.get("header"),
                             footer=self.kw.get("footer"))
@@ -66,6 +90,37 @@ class _Live:
             return "bad-op"
         except Exception as e:
             return "err " + type(e).__name__
+
+
+def enc_direct(desc):
+    """the columns of a description as ReprColumn objects + the two limits of the PPTableFormat"""
+    fields = {f["name"]: f for f in desc["fields"]}
+    out = ["Q", str(len(desc["cols"]))]
+    for c in desc["cols"]:
+        f = fields[c["f"]]
+        lo, hi = c["w"] if c["w"] is not None else ((f["custom"]["min"], f["custom"]["max"]) if f.get("custom") else (1, 999))
+        out += [enc_str(c["f"]), "none" if c.get("mod") is None else enc_str(c["mod"]), "1" if c.get("brk") else "0",
+                str(lo), str(hi)]
+    nf, nl = c12.effective_limits(desc)
+    out += ["n" if nf is None else str(nf), "n" if nl is None else str(nl)]
+    return " ".join(out)
+
+
+def _build_direct(records, kw, q):
+    """PPTable(records, fmt_obj=PPTableFormat(ReprStructure(<record structure of fields=>, [ReprColumn ...]), f, l))"""
+    from ak.ppobj import PPTable, PPTableFormat, ReprStructure, ReprColumn
+    rs = PPTableFormat.make(None, kw.get("fields"), kw.get("fields_types"), kw.get("fields_titles"),
+                            records[0] if records else None).repr_structure.record_structure
+    p = c12._Toks(q)
+    if p.tok() != "Q":
+        raise ValueError("Q")
+    cols = []
+    for _ in range(int(p.tok())):
+        name, mod, brk, lo, hi = dec_str(p.tok()), p.opt(), p.tok() == "1", int(p.tok()), int(p.tok())
+        cols.append(ReprColumn(rs.get_field(name), mod, brk, lo, hi))
+    lims = [None if x == "n" else int(x) for x in (p.tok(), p.tok())]
+    fobj = PPTableFormat(ReprStructure(rs, cols), lims[0], lims[1])
+    return PPTable(records, fmt_obj=fobj, header=kw.get("header"), footer=kw.get("footer"))
 
 
 def _show_parsed(fmt):
@@ -118,8 +173,9 @@ def _ctor_kw(records, kw, fmt):
     kw.pop("limits", None)
     kw.pop("skip_columns", None)
     kw["fmt"] = fmt
+    names = kw.pop("_names", None)
     if "fields" not in kw:
-        kw["fields"] = ["col_%d" % (i + 1) for i in range(len(records[0]))] if records else ["-" + " " * 30 + "-"]
+        kw["fields"] = names
     return kw
 
 
@@ -217,10 +273,25 @@ def _safe_desc(rng, big=False):
             return d
 
 
+def gen_sibling_ops(rng, desc):
+    """two tables from one format object with different data: one is printed, then the other is read and printed"""
+    second = {"records": c12.gen_records_like(rng, desc, rng.choice([0, 1, 2, 4, 7])) if desc.get("fields") and
+              all("enum" in f for f in desc["fields"]) else [],
+              "limits": None, "header": rng.choice([None, "S"]), "footer": rng.choice([None, ""]), "skip": None}
+    ops = ["sib " + c12.enc_rest(second)]
+    ops += rng.choice([["print"], ["print", "str"], []])
+    ops += ["swap", "str"] + rng.choice([["print", "str"], ["setlast", "print"], ["ctorlast", "print"], ["print"]])
+    if rng.random() < 0.5:
+        ops += ["swap", "str", "print"]
+    return ops
+
+
 def gen_history(rng, desc):
     ops = []
     n = rng.choice([2, 3, 4, 5, 6, 8])
     names = [f["name"] for f in desc["fields"]]
+    if rng.random() < 0.25:
+        ops += gen_sibling_ops(rng, desc)
     for _ in range(n):
         k = rng.random()
         if k < 0.22:
@@ -241,9 +312,7 @@ def gen_history(rng, desc):
             if rng.random() < 0.8:
                 cols = []
                 for _ in range(rng.randint(1, 3)):
-                    f = rng.choice(desc["fields"])
-                    mod = rng.choice(["full", "val", "name", None]) if f.get("enum") else None
-                    cols.append({"f": f["name"], "mod": mod, "brk": rng.random() < 0.3, "w": c12.gen_width(rng)})
+                    cols.append(c12.gen_col(rng, rng.choice(desc["fields"])))
             lim = rng.choice([None, None, "*", [rng.randint(0, 4), rng.randint(0, 4)]])
             ops.append("set " + enc_str(c12.fmt_str(rng, cols, lim)))
         else:
@@ -254,7 +323,12 @@ def gen_history(rng, desc):
     return ops
 
 
-def _case(desc, ops, kind):
+def _case(desc, ops, kind, direct=False):
+    if direct:
+        # the format is built from ReprColumn objects: the first string that meets the parser is str(table.fmt)
+        d0 = dict(desc, fmt=None, limits=None, skip=None)
+        first = "newobj " + c12.encode(d0) + " @ " + enc_direct(desc)
+        return {"lines": [first] + ops, "desc": desc, "meta": {"kind": kind + "-from-objects"}}
     return {"lines": ["new " + c12.encode(desc)] + ops, "desc": desc, "meta": {"kind": kind}}
 
 
@@ -271,7 +345,9 @@ def gen_cases(rng, tier):
     quick = tier == "quick"
     for i in range(1500 if quick else 40000):
         desc = _safe_desc(rng, big=(not quick) and i % 10 == 0)
-        yield _case(desc, gen_history(rng, desc), "history")
+        direct = (desc["cols"] is not None and desc["skip"] is None and rng.random() < 0.35
+                  and all(c["w"] != "hidden" for c in desc["cols"]))
+        yield _case(desc, gen_history(rng, desc), "history", direct)
     for _ in range(120 if quick else 3000):
         desc = c12.gen_fieldless(rng)
         yield _case(desc, gen_history(rng, {"fields": desc["oracle_fields"]}), "fieldless")
@@ -313,8 +389,14 @@ def shrink(case):
     desc = case.get("desc")
     if desc is None:
         return
+    direct = lines[0].startswith("newobj ")
     for small in c12.shrink({"lines": ["tbl " + c12.encode(desc)], "desc": desc, "meta": {}}):
-        yield {"lines": ["new " + c12.encode(small["desc"])] + lines[1:], "desc": small["desc"], "meta": case.get("meta", {})}
+        d = small["desc"]
+        if direct and (d.get("cols") is None or d.get("skip") is not None):
+            continue
+        c = _case(d, lines[1:], "history", direct)
+        c["meta"] = case.get("meta", {})
+        yield c
 
 
 def nontrivial(case, replies):
@@ -333,17 +415,24 @@ def tags(case, replies):
             printed = True
         if op == "str" and rep.startswith("ok "):
             s = dec_str(rep[3:])
+            if any(x.count("/") > 1 for x in s.split(";")[0].split(",")):
+                yield "str:modifier-with-slash"
             if "(" in s:
                 yield "str:with-negotiated-width"
             if ";" in s:
                 yield "str:with-limits"
             yield "str:printed" if printed else "str:fresh"
-        if op in ("setlast", "ctorlast", "set", "ctor", "new", "ctorobj") and rep == "ok":
+        if op in ("setlast", "ctorlast", "set", "ctor", "new", "newobj", "ctorobj") and rep == "ok":
+            printed = False
+        if op == "swap" and rep == "ok":
+            yield "sibling:swapped-in"
             printed = False
 
 
-RULE = ("histories over C12's tables (field names the serialised form can express): new, then 2-8 of str / print / "
-        "str+setlast / str+ctorlast / ctorobj (fmt_obj=table.fmt) / set ''|';'|';;' / set <another well-formed format> / set <malformed>, always "
+RULE = ("histories over C12's tables (field names the serialised form can express; user-written field types with "
+        "free-text modifiers incl. '/'): new - or newobj: the format built from ReprColumn objects, no parser - then 2-8 of str / print / "
+        "str+setlast / str+ctorlast / ctorobj (fmt_obj=table.fmt) / sib+swap (a second table from the same format "
+        "object with other records, printed and read in either order) / set ''|';'|';;' / set <another well-formed format> / set <malformed>, always "
         "ending with str, print, str, setlast|ctorlast, print, str; plus `parse <fmt>` lines (fuzzed and edited format "
         "strings; the parser's internal record is compared as a diagnostic). non-trivial = at least one later step answered "
         "with data; distinct by protocol text")
@@ -351,8 +440,10 @@ TRUSTED = list(c12.TRUSTED)
 ASSUMPTIONS = list(c12.ASSUMPTIONS) + [
     "field names contain none of , : ; ! / < ( ) and no surrounding blanks (out of the property's domain)",
     "a print that raises ends the history (the half-updated format object is not modelled)"]
-LEVEL_TEXT = ("Kernel-checked on the model, for all tables with explicit expressible field names and all histories of "
-              "printing / table.fmt = <any string> / re-construction from any string (Reach): the printed format "
+LEVEL_TEXT = ("Kernel-checked on the model, for all tables with explicit expressible field names (modifiers of user-written "
+              "field types: free text without , : ; ! < and no trailing blank, '/' allowed) and all histories of "
+              "construction from a string or from column objects or from another reachable table's format object "
+              "(siblings) / printing / table.fmt = <any string> / re-construction from any string (Reach): the printed format "
               "string is accepted by the parser and reads back as the same columns (name, modifier, break-by, bounds) "
               "and limits, with or without negotiated widths (parse_print, incl. the '(width)' suffix of the fixed "
               "defect); applying it through the setter or through the constructor yields a table that prints exactly "
